@@ -50,6 +50,22 @@ Proof.
 Qed.
 Print Assumptions macho_range_sound.
 
+(* pe.c pe_parse_exports: every indexed access to the three parallel export tables (ordinals[j], function_addrs[i],
+   names[j]) lies in the data, given the guard of that table as it is written now and the bound the index is known
+   to be below where the access is evaluated (both regenerated from the source) *)
+Theorem exports_tables_in_bounds : forall nfun_raw nn_raw avail_o avail_f avail_n,
+  is_u32 nfun_raw -> is_u32 nn_raw -> is_u64 avail_o -> is_u64 avail_f -> is_u64 avail_n ->
+  let nexp := exp_number_of_exports nfun_raw in
+  let nnames := exp_number_of_names nexp nn_raw in
+  (exp_ordinals_rejects avail_o nexp nnames nn_raw = false ->
+     forall j, 0 <= j < exp_ordinals_index_bound nexp nnames -> sizeof_WORD * (j + 1) <= avail_o) /\
+  (exp_functions_rejects avail_f nexp nnames nn_raw = false ->
+     forall i, 0 <= i < exp_functions_index_bound nexp nnames -> sizeof_DWORD * (i + 1) <= avail_f) /\
+  (exp_names_rejects avail_n nexp nnames nn_raw = false ->
+     forall j, 0 <= j < exp_names_index_bound nexp nnames -> sizeof_DWORD * (j + 1) <= avail_n).
+Proof. exact exports_tables_in_bounds_l. Qed.
+Print Assumptions exports_tables_in_bounds.
+
 Theorem rva_to_offset_in_range : forall pe secs rva off,
   0 <= pe_data_size pe <= 9223372036854775807 ->
   pe_rva_to_offset pe secs rva = ROffset off -> 0 <= off < pe_data_size pe.
